@@ -42,6 +42,11 @@ func (e *Executor) Status(ctx context.Context, calls ...*Call) error {
 }
 
 func (e *Executor) statusOnError(t *ast.Task) error {
+	// A dry run has not recorded anything, and must not touch what an
+	// earlier real run recorded
+	if e.Dry {
+		return nil
+	}
 	method := t.Method
 	if method == "" {
 		method = e.Taskfile.Method
